@@ -197,6 +197,7 @@ def run(ctx):
             # degrees beyond what an exact oracle can certify
             for d in (100, 200, 300):
                 cases.append(G.mono_case("big%d" % d, "random-integer-large", G.rand_int_poly(ctx.rng, d, 10), ctx.rng))
+        for c in cases: c["coeffs"] = [(Fr(a[0]), Fr(a[1])) for a in c["coeffs"]]      # some generators give plain ints
         # the equivalent formulations are computed by the extracted conversions (one batch through bin/matchq)
         prms, query, counts = [], [], []
         for c in cases:
